@@ -95,7 +95,7 @@ Proof.
     + destruct k.
       * (* common: the enclosing object is untouched *)
         destruct (each_loop pn kids _) as [[c1|]|e]; try discriminate.
-        destruct (name_ok (c_vals c1)); inversion H; subst. apply same_frame_refl.
+        destruct (name_ok (c_vals c1)); [|discriminate]. destruct (many_ok (c_meta c1) (c_vals c1)); inversion H; subst. apply same_frame_refl.
       * (* abstract *)
         destruct kids as [|k rest]; [discriminate|].
         destruct rest as [|k2 rest].
@@ -115,7 +115,7 @@ Theorem object_span_is_node_span n kids top cls p e attrs top' :
 Proof.
   intros H [c [a Ei]]. cbn [pnode] in H. rewrite Ei in H.
   destruct (each_loop pn kids _) as [[c1|]|er] eqn:E; try discriminate.
-  destruct (name_ok (c_vals c1)); [|discriminate]. inversion H; subst.
+  destruct (name_ok (c_vals c1)); [|discriminate]. destruct (many_ok (c_meta c1) (c_vals c1)); [|discriminate]. inversion H; subst.
   assert (F : same_frame (Some (mkCur c a (tpos (NT n kids)) (tend (NT n kids)) (init_attrs auto a))) (Some c1)).
   { apply (each_frame pn kids); [|exact E]. apply Forall_forall. intros k _. apply pnode_frame. }
   cbn in F. destruct F as [F1 [F2 _]]. split; assumption.
